@@ -94,7 +94,7 @@ def applicable(op, ty, nt):
     if op == "ova":
         return d == 1
     if op == "single":
-        return r == "O" and k == "A" and d == 2 and l == "U" and nt == 1
+        return r == "O" and k == "A" and d == 2 and l == "U"
     return True
 
 
@@ -144,7 +144,7 @@ def random_cases(ctx, count, maxn, maxdepth):
             elif op == "wl":
                 o["ls"] = [r.choice([0, 1, 2, 3, 4, 5, 9]) for _ in range(r.randint(0, 4))]   # any order, repeats, absent labels
             elif op == "chunk":
-                o["a"] = r.randint(1, 5)
+                o["a"] = r.randint(0, 5) if r.random() < 0.2 else r.randint(1, 5)
             elif op == "map":
                 o["a"] = r.randrange(3)
             prog.append(o)
@@ -199,10 +199,14 @@ def run(ctx):
     traces = vlib.run_harness(ctx, binp, cases)
     # vacuity: every operation was really executed (an "op" event) on every family of Rust types it exists for
     opcount = collections.Counter()
+    refused = collections.Counter()
     for t in traces:
         for ev in t["ev"]:
             if ev["ev"] == "op":
                 opcount[ev["op"]] += 1
+            elif ev["ev"] == "panic":
+                refused[ev["op"]] += 1
+    ctx.extra["panics_by_operation"] = dict(refused)
     missing = [o for o in ALL_OPS if opcount[o] == 0]
     if missing:
         raise vlib.ToolError("operations never executed by any case: %s" % missing)
